@@ -382,6 +382,29 @@ steps:
 """},
 }
 
+SCENARIOS["big"] = {
+    # every status line exceeds bufio's 4096-byte buffer: the JSON text and the newline reach the file in two write calls
+    "steps": ["a", "b"], "fails": [],
+    "yaml": """name: big
+schedule: "* * * * *"
+steps:
+  - name: a
+    description: "%s"
+    command: sh -c "touch $M/a.start; sleep 0.01; touch $M/a.end"
+  - name: b
+    description: "%s"
+    command: sh -c "touch $M/b.start; sleep 0.01; touch $M/b.end"
+    depends:
+      - a
+""" % ("x" * 2400, "y" * 2400)}
+
+FINAL = {"chain": (FINISHED, [FINISHED, FINISHED, FINISHED]), "retry": (FINISHED, [FINISHED, FINISHED]),
+         "fail": (FAILED, [FINISHED, FAILED, CANCELED]), "big": (FINISHED, [FINISHED, FINISHED])}
+
+# boundaries of the shutdown path after the final status has reached the history file
+AFTER_FINAL = ("openat:history-reread", "openat:history-compacted", "write:compacted-line", "unlinkat:history-file",
+               "fsync:compacted", "fsync:history", "close:compacted", "close:history")
+
 TRACE = "write,openat,unlinkat,socket,connect,bind,listen,accept4,fsync,mkdirat,close,read,epoll_ctl,clone,clone3,exit_group"
 INJECTABLE = ["write", "openat", "unlinkat", "socket", "connect", "bind", "listen", "fsync", "mkdirat", "close", "read", "epoll_ctl"]
 
@@ -449,8 +472,8 @@ class Crash:
                 counts.setdefault(m.group(2), {}).setdefault(m.group(1), 0)
                 counts[m.group(2)][m.group(1)] += 1
         o = self.latest(h, scen)
-        ok = o.get("latest") and o["latest"]["st"] == (FAILED if SCENARIOS[scen]["fails"] else FINISHED)
-        return {k: max(v.values()) for k, v in counts.items()}, ok, o
+        ok = o.get("latest") and o["latest"]["st"] == FINAL[scen][0] and table(o["latest"]) == FINAL[scen][1]
+        return {k: max(v.values()) for k, v in counts.items()}, ok, o, targets(log)
 
     def kill_case(self, scen, how, arg):
         """how = 'time' (arg = ms after spawn) | 'sys' (arg = (syscall, k)).  Returns the case dict."""
@@ -477,6 +500,7 @@ class Crash:
             case["rc"] = p.returncode
             case["killed"] = p.returncode in (137, -9)
             case["boundary"] = boundary(log, sysc) if case["killed"] else None
+            case["after_final"] = case["boundary"] in AFTER_FINAL
         time.sleep(0.09)      # orphaned step commands (30 ms sleeps) finish
         case["markers"] = self.markers(h)
         post = self.latest(h, scen)
@@ -488,9 +512,6 @@ class Crash:
         if os.path.isdir(os.path.join(h, "data")):
             shutil.copytree(os.path.join(h, "data"), snap)
         had_sock = bool(post.get("sock_file"))
-        # history files are ordered by a time stamp cut at seconds (known finding C06-same-second): keep the later runs out
-        # of the killed run's second so that this check sees C08 behaviour only
-        time.sleep(max(0.0, 1.02 - (time.time() % 1.0)))
         shutil.rmtree(os.path.join(h, "m"))
         os.makedirs(os.path.join(h, "m"))
         rc, err, dt = self.start(h, scen)
@@ -526,48 +547,101 @@ class Crash:
                 pass
 
 
-def boundary(log, sysc):
-    """which call of the run the injected SIGKILL landed on (from the strace log)"""
-    last = None
-    hit = None
+def _walk(log):
+    """yields (tid, syscall, args, killed_here, label) for every call of the run's process in the strace log, with the file
+    descriptors of the history file, its compaction twin, the logs and the socket tracked"""
+    fds = {}
+    pending = {}
+    seen_create = False
     try:
-        for ln in open(log, errors="replace"):
-            m = re.match(r"\d+\s+%s\((.*)" % sysc, ln)
-            if m:
-                last = m.group(1)
-                if ln.rstrip().endswith("= ?"):      # the call that never returned: the tracee was killed on entering it
-                    hit = m.group(1)
+        lines = open(log, errors="replace").read().split("\n")
     except OSError:
-        return None
-    last = hit or last
-    if last is None:
-        return sysc + ":?"
-    a = last
-    if "_c.dat" in a:
-        k = "history-compacted"
-    elif ".dat" in a:
-        k = "history-file"
-    elif "RequestId" in a:
-        k = "history-line"
-    elif ".sock" in a:
-        k = "socket"
-    elif "start_" in a and ".log" in a:
-        k = "agent-log"
-    elif ".log" in a:
-        k = "step-log"
-    elif "time=" in a or "Summary" in a:
-        k = "log-line"
-    elif "/data" in a:
-        k = "data-dir"
-    elif "/logs" in a:
-        k = "log-dir"
-    elif ".yaml" in a:
-        k = "dag-file"
-    elif "\\1\\0\\0" in a:
-        k = "eventfd"
-    else:
-        k = "other"
-    return "%s:%s" % (sysc, k)
+        return
+    for ln in lines:
+        m = re.match(r"(\d+)\s+(\w+)\((.*)", ln)
+        if not m:
+            r = re.match(r"(\d+)\s+<\.\.\. (\w+) resumed>.*=\s+(-?\d+)", ln)
+            if r and r.group(2) == "openat" and r.group(1) in pending and int(r.group(3)) >= 0:
+                fds[int(r.group(3))] = pending.pop(r.group(1))
+            continue
+        tid, sysc, args = m.group(1), m.group(2), m.group(3)
+        killed = ln.rstrip().endswith("= ?")
+        kind = None
+        if sysc == "openat":
+            if "_c.dat" in args:
+                kind = "hist_c"
+            elif ".dat" in args:
+                kind = "hist"
+            elif "start_" in args and ".log" in args:
+                kind = "agentlog"
+            elif ".log" in args:
+                kind = "steplog"
+            elif ".yaml" in args:
+                kind = "dag"
+            r = re.search(r"=\s+(\d+)\s*$", ln)
+            if kind and r:
+                fds[int(r.group(1))] = kind
+            elif kind and "unfinished" in ln:
+                pending[tid] = kind
+            if kind == "hist_c":
+                label = "openat:history-compacted"
+            elif kind == "hist":
+                label = "openat:history-file" if ("O_CREAT" in args and not seen_create) else "openat:history-reread"
+                seen_create = seen_create or "O_CREAT" in args
+            else:
+                label = "openat:" + {"agentlog": "agent-log", "steplog": "step-log", "dag": "dag-file"}.get(kind, "other")
+        elif sysc in ("write", "fsync", "close"):
+            r = re.match(r"(\d+)", args)
+            fk = fds.get(int(r.group(1))) if r else None
+            if sysc == "write":
+                if fk == "hist_c":
+                    label = "write:compacted-line"
+                elif fk == "hist" or "RequestId" in args:
+                    label = "write:history-line"
+                elif fk in ("agentlog", "steplog") or "time=" in args or "Summary" in args:
+                    label = "write:log-line"
+                elif "\\1\\0\\0" in args:
+                    label = "write:eventfd"
+                else:
+                    label = "write:other"
+            else:
+                label = "%s:%s" % (sysc, {"hist_c": "compacted", "hist": "history", "agentlog": "agent-log", "steplog": "step-log"}.get(fk, "other"))
+            if sysc == "close" and r and not killed:
+                fds.pop(int(r.group(1)), None)
+        elif sysc == "unlinkat":
+            label = "unlinkat:history-file" if ".dat" in args else ("unlinkat:socket" if ".sock" in args else "unlinkat:other")
+        elif sysc == "mkdirat":
+            label = "mkdirat:" + ("data-dir" if "/data" in args else "log-dir" if "/logs" in args else "other")
+        elif sysc in ("connect", "bind"):
+            label = sysc + ":socket"
+        else:
+            label = sysc + ":other"
+        yield tid, sysc, args, killed, label
+
+
+def boundary(log, sysc):
+    """which call of the run the injected SIGKILL landed on (the call that never returned)"""
+    last = None
+    for tid, sc_, args, killed, label in _walk(log):
+        if sc_ == sysc:
+            if killed:
+                return label
+            last = label
+    return last or (sysc + ":?")
+
+
+def targets(log):
+    """(label, syscall, k) for the calls of the shutdown path of an uninterrupted traced run: k = how many calls of that name
+    the thread had made (strace counts `when` per thread)"""
+    cnt = {}
+    out = []
+    for tid, sysc, args, killed, label in _walk(log):
+        if sysc not in INJECTABLE:
+            continue
+        cnt[(tid, sysc)] = cnt.get((tid, sysc), 0) + 1
+        if label in AFTER_FINAL and not label.startswith("close:"):
+            out.append((label, sysc, cnt[(tid, sysc)]))
+    return out
 
 
 def monitor_crash(case):
@@ -600,6 +674,11 @@ def monitor_crash(case):
                 cls = {"class": "kill-between-steps"} if pending else {"class": "dead-finished-other"}
                 out.append(("killed run reported as finished although step(s) %s never completed (reported steps %s, markers %s)"
                             % ([n["name"] for n in L["nodes"] if n["st"] not in DONE_OK] or incomplete, t, sorted(marks)), cls))
+    if case.get("after_final") and L is not None and not post.get("latest_err"):
+        want_st, want_tbl = FINAL[case["scenario"]]
+        if L["st"] != want_st or table(L) != want_tbl:
+            out.append(("killed inside the shutdown (%s), after the final status had been written: reported %r %s, not the final state %s"
+                        % (case["boundary"], L["text"], table(L), want_tbl), {"class": "shutdown-kill-not-final"}))
     cur = post.get("current")
     if post.get("current_err") or cur is None or cur["st"] != NONE:
         out.append(("after the kill the socket probe does not say `not running`: %s %s" % (cur and cur["text"], post.get("current_err")), {"class": "dead-probe"}))
@@ -647,9 +726,10 @@ def run_crash(ctx, bd, helper, tier, rng, workers=8):
     cases = []
     info = {}
     jobs = []
+    wanted = []
     for scen in SCENARIOS:
-        counts, ok, o = cr.reference(scen)
-        info[scen] = {"reference_ok": bool(ok), "per_thread_max": counts}
+        counts, ok, o, tg = cr.reference(scen)
+        info[scen] = {"reference_ok": bool(ok), "per_thread_max": counts, "shutdown_calls": [t[0] for t in tg]}
         if not ok:
             cases.append({"scenario": scen, "how": "reference", "arg": None, "killed": False, "reference_failed": True, "post": o, "markers": []})
             continue
@@ -658,12 +738,32 @@ def run_crash(ctx, bd, helper, tier, rng, workers=8):
             pts = pts[::3]
         jobs += [(scen, "sys", p) for p in pts]
         if tier == "quick":
-            offs = [4 + rng.below(6) + 11 * i for i in range(34 if scen == "chain" else 12)]
+            offs = [4 + rng.below(6) + 11 * i for i in range(34 if scen == "chain" else 10)]
         else:
             offs = [2 + 3 * i + rng.below(3) for i in range(140)]
         jobs += [(scen, "time", o) for o in offs]
+        # kill points INSIDE the shutdown compaction (re-read of the original, creation of the twin, its write(s), unlink of the
+        # original, fsyncs): aimed at from the reference trace; thread placement varies between runs, so neighbours are tried too
+        if scen in ("chain", "big") or tier != "quick":
+            for (label, sysc, k) in tg:
+                wanted.append((scen, label, sysc, k))
+                jobs.append((scen, "sys", (sysc, k)))
     with ThreadPoolExecutor(max_workers=workers) as ex:
         for c in ex.map(lambda j: cr.kill_case(*j), jobs):
             cases.append(c)
+        # second chance for shutdown boundaries that were not hit
+        for attempt in (1, 2):
+            hit = {(c["scenario"], c.get("boundary")) for c in cases if c.get("killed")}
+            retry = []
+            for (scen, label, sysc, k) in wanted:
+                if (scen, label) not in hit:
+                    retry += [(scen, "sys", (sysc, kk)) for kk in (k - attempt, k + attempt, k) if kk >= 1]
+            if not retry:
+                break
+            for c in ex.map(lambda j: cr.kill_case(*j), retry):
+                cases.append(c)
+    hit = {(c["scenario"], c.get("boundary")) for c in cases if c.get("killed")}
+    info["shutdown_boundaries"] = {"wanted": sorted({"%s/%s" % (a, b) for a, b, _, _ in wanted}),
+                                   "hit": sorted({"%s/%s" % (a, b) for a, b, _, _ in wanted if (a, b) in hit})}
     cr.cleanup()
     return cases, info
